@@ -574,7 +574,32 @@ class Parser:
         path_tok = self._strip_path_prefix(a)
         if path_tok:
             self._path_token = path_tok
+        self._decode_fstring_parts(b, raw="r" in a.string.rstrip("'\"").lower())
         return ast.JoinedStr(values=b, **locs)
+
+    def _decode_fstring_parts(self, parts: list[Any], raw: bool) -> None:
+        """Literal parts of an f-string hold source text: undouble braces and decode escapes."""
+        for p in parts:
+            if isinstance(p, ast.Constant) and isinstance(p.value, str):
+                p.value = self._decode_fstring_literal(p.value, raw)
+            elif isinstance(p, ast.FormattedValue) and isinstance(p.format_spec, ast.JoinedStr):
+                self._decode_fstring_parts(p.format_spec.values, raw)
+
+    @staticmethod
+    def _decode_fstring_literal(text: str, raw: bool) -> str:
+        text = text.replace("{{", "{").replace("}}", "}")
+        if raw or "\\" not in text:
+            return text
+        tail = ""
+        if (len(text) - len(text.rstrip("\\"))) % 2:  # a lone trailing backslash stays as it is
+            text, tail = text[:-1], "\\"
+        quote = '"""' if '"""' not in text and not text.endswith('"') else "'''"
+        if quote in text or text.endswith(quote[0]):
+            return text + tail
+        try:
+            return ast.literal_eval(quote + text + quote) + tail
+        except (SyntaxError, ValueError):
+            return text + tail
 
     @staticmethod
     def _strip_path_prefix(token: TokenInfo | ast.expr) -> TokenInfo | None:
